@@ -521,6 +521,22 @@ func Denotes(impl, spec *Node, al *Allow) (bool, string) {
 // loop switches to text there, the byte-at-a-time path and the tokenizer do not) and both denote
 // the same value. used reports whether that allowance was needed.
 func EqualModuloInt19(a, b *Node) (equal bool, used bool) {
+	if a.Kind == 'B' && b.Kind == 'B' && a.Text != b.Text {
+		// both text, spelled differently: the fast loop keeps the literal's spelling from the 19th
+		// digit on ("E", "+", leading exponent zeros), the late switch renders the accumulators
+		ta, e1 := UnhexF(a.Text)
+		tb, e2 := UnhexF(b.Text)
+		if e1 != nil || e2 != nil {
+			return false, false
+		}
+		ip := string(ta)
+		if i := strings.IndexAny(ip, ".eE"); i >= 0 {
+			ip = ip[:i]
+		}
+		da, ok1 := ParseDec(string(ta))
+		db, ok2 := ParseDec(string(tb))
+		return ok1 && ok2 && isInt19(ip) && da.Equal(db), true
+	}
 	if a.Kind == 'B' && b.Kind != 'B' {
 		a, b = b, a
 	}
